@@ -2,6 +2,7 @@
 //! logger capture (observation point O3), panic capture (O5).
 
 use crate::dd::Dd;
+use crate::xf::Xf;
 use crate::tr::Tr;
 use momtrop::float::MomTropFloat;
 use momtrop::log::Logger;
@@ -46,6 +47,18 @@ impl Sc for Dd {
     }
     fn val(&self) -> f64 {
         self.hi
+    }
+    fn nid(&self) -> u32 {
+        u32::MAX
+    }
+}
+
+impl Sc for Xf {
+    fn mk(_: u8, _: u32, v: f64) -> Xf {
+        Xf::f(v)
+    }
+    fn val(&self) -> f64 {
+        self.image()
     }
     fn nid(&self) -> u32 {
         u32::MAX
@@ -211,6 +224,8 @@ pub trait DynSampler: Send + Sync {
     fn sample_tr(&self, x: &[Tr], ed: &EdgeData<Tr>, s: &Settings) -> SampleOut<Tr>;
     /// the same call with the double-double scalar (a user-supplied higher-precision type)
     fn sample_dd(&self, x: &[Dd], ed: &EdgeData<Dd>, s: &Settings) -> SampleOut<Dd>;
+    /// ... and with the wide-range scalar (f64 precision, unbounded exponent)
+    fn sample_xf(&self, x: &[Xf], ed: &EdgeData<Xf>, s: &Settings) -> SampleOut<Xf>;
     /// generate_sample_from_rng with a counting rng; returns (out, draws made, the f64 draws)
     fn sample_rng(&self, ed: &EdgeData<f64>, s: &Settings, seed: u64) -> (SampleOut<f64>, usize, Vec<f64>, u64);
 }
@@ -315,6 +330,9 @@ impl<const D: usize> DynSampler for SampleGenerator<D> {
     }
     fn sample_dd(&self, x: &[Dd], ed: &EdgeData<Dd>, s: &Settings) -> SampleOut<Dd> {
         run_sample::<Dd, D>(self, x, ed, s)
+    }
+    fn sample_xf(&self, x: &[Xf], ed: &EdgeData<Xf>, s: &Settings) -> SampleOut<Xf> {
+        run_sample::<Xf, D>(self, x, ed, s)
     }
     fn sample_rng(&self, ed: &EdgeData<f64>, s: &Settings, seed: u64) -> (SampleOut<f64>, usize, Vec<f64>, u64) {
         use rand::{Rng, RngCore, SeedableRng};
